@@ -189,8 +189,25 @@ def describe(obj):
 # ---------------------------------------------------------------------------------------------
 # bindings: one function per action; returns (new_object | None, returned_value | None)
 # ---------------------------------------------------------------------------------------------
+# Container of the arrays handed to the library: jax arrays (default) or writable NumPy arrays (VERIF_CONTAINER=numpy,
+# or a Replayer(container="numpy")).  With NumPy containers every array that was handed over is kept together with a
+# private copy, and after each call the harness verifies that the library did not write into the caller's arrays.
+_CONTAINER = [os.environ.get("VERIF_CONTAINER", "jax")]
+_HANDED = []
+
+
 def A(x):
-    return jnp.asarray(np.array(x, dtype=float))
+    a = np.array(x, dtype=float)
+    if _CONTAINER[0] == "numpy":
+        _HANDED.append((a, a.copy()))
+        return a
+    return jnp.asarray(a)
+
+
+def check_arguments_untouched():
+    for a, c in _HANDED:
+        if not np.array_equal(a, c):
+            raise Mismatch("argument.mutated", a.tolist(), c.tolist(), "the call wrote into an array owned by the caller")
 
 
 def stack_q(qs):
@@ -505,6 +522,7 @@ class Replayer:
         """Generator form of run(): yields after every step (so that two behaviours can be replayed INTERLEAVED by two
         Replayers in one process); the generator's return value is run()'s result."""
         self.heap, self.expect, self.flags = {}, {}, {}
+        del _HANDED[:]
         for si, st in enumerate(behaviour):
             if si:
                 yield si
@@ -538,6 +556,7 @@ class Replayer:
                     self.expect[st["mid"]] = st["mo"]
                     check_object(self.heap[st["mid"]], st["mo"], "mutated")
                 compare_ret(st, ret)
+                check_arguments_untouched()
                 for key in OPERAND_KEYS:
                     oid = st["a"].get(key)
                     if isinstance(oid, int) and oid in self.heap:
